@@ -90,16 +90,18 @@ def run(ctx):
         drv = fw.model_driver(ctx, "dist", ("conv.ml", "drv_dist.ml"))
     except Exception as e:
         ctx.signal("T", "extraction:dist", "distributed model does not build/extract: " + str(e)[-800:]); return
-    procs = ctx.scale([1, 2, 3, 4, 6], [1, 2, 3, 4, 5, 6, 7, 8, 12, 16])
+    procs = ctx.scale([1, 2, 3, 4, 6, 8], [1, 2, 3, 4, 5, 6, 7, 8, 12, 16])
     per = ctx.scale(60, 500)
     for P in procs:
         cases = []
-        for k in range(per if not (ctx.quick() and P == 6) else 24):
-            blk = rng.random() < 0.2
+        for k in range(per if not (ctx.quick() and P >= 6) else 24):
+            blk = rng.random() < 0.25
             c = gen_blockcase(rng, "p%d_%d" % (P, k), P) if blk else gen_parcase(rng, "p%d_%d" % (P, k), P)
             kind = rng.choice(KINDS); fmt = rng.choice(["coo", "csr", "csc"]) if not blk else "bsr%dx%d" % (c["br"], c["bc"])
-            tap = 1 if ((rng.random() < 0.35 or (ctx.quick() and P == 6)) and P >= 2) else 0
+            if blk and c["br"] != c["bc"]: kind = rng.choice(["residual", "residual", "mult_append", "mult", "mult_T"])     # non-square blocks: every product uses its own block size
+            tap = 1 if ((rng.random() < 0.35 or (ctx.quick() and P >= 6) or (blk and rng.random() < (0.8 if c["br"] != c["bc"] else 0.5))) and P >= 2) else 0
             ppn = rng.choice([d for d in (1, 2, 3, 4, 8) if P % d == 0 or d >= P]) if tap else 4
+            if tap and P >= 6 and rng.random() < 0.7: ppn = 2          # more nodes than processes per node
             if tap and rng.random() < 0.5: tap = rng.choice([10, 12])      # rank orderings 0 / 2 of the node-aware package
             T = kind == "mult_T"
             nx = c["nr"] if T else c["nc"]; nb = c["nr"]
